@@ -9,6 +9,8 @@
 (*         Run({}, c) the code with all proposed repairs applied.                                      *)
 (* Part 2  declarative statement of the property (Definite, Allowed), written from the property text   *)
 (*         and doc/utility-programs.md only: no seek positions, no chunk list, no measuring pass.      *)
+(* Part 2b the weaker-but-definite statement for selected records of DIFFERENT granularity             *)
+(*         (DefiniteMixed, AllowedMixed): everything but the position of a smaller-unit record.        *)
 (* Part 3  Verdict: judgement of an observed run of the real p2bin (used by P2Bin_Trace).              *)
 (*                                                                                                     *)
 (* A case c = [files |-> << [off |-> offset, items |-> <<CodeFile items>>] >>,     (argv order)        *)
@@ -33,6 +35,11 @@ Devs == {"filter_hdr",          \* FilterOK(InpHeader): -f compares the record t
          "maxgran_explicit",    \* MaxGran stays 1 when both -r bounds are explicit (no measuring pass)
          "overlap_first_only",  \* AddChunk warns only for the first chunk a new range touches
          "zero_len"}            \* empty records take part in automatic bounds / clip to the whole window
+
+\* PROBES: hypothetical departures that are NOT in the pinned tree.  They exist so that TLC can show that a declarative
+\* claim is not vacuous (P2Bin_MC_probe_*.cfg: with Dev = {probe} TLC must find the claim violated); Verdict never
+\* tries them as an explanation.
+Probes == {"skip_maxgran"}      \* source bytes skipped at the window start counted in units of MaxGran, not of the record
 
 Max2(a, b) == IF a >= b THEN a ELSE b
 Min2(a, b) == IF a <= b THEN a ELSE b
@@ -152,6 +159,7 @@ Thin(l, lo, src) ==      \* keep the bytes whose byte address lo+k lies in the l
   LET idx == SelectSeq([k \in 1..Len(src) |-> k], LAMBDA k : InLane(l, lo + k - 1))
   IN [j \in 1..Len(idx) |-> src[idx[j]]]
 
+FileBehind == 129
 TargetPos(D, o, m, it, es) ==
   HdrLen(o) + (IF "lane_floor" \in D THEN ((es - m.start) * it.gran) \div LaneDiv(o.lane)
                ELSE LaneCount(o.lane, m.start * it.gran, es * it.gran))
@@ -163,7 +171,12 @@ ProcessItem(D, o, m, s, it) ==
            ee == Min2(m.stop, it.start + Units(it) - 1)                        \* ErgStop
        IN IF ee < es THEN s
           ELSE LET ac  == AddChunk(D, s.used, es, ee - es + 1)
-                   src == SubSeq(it.data, (es - it.start) * it.gran + 1, (ee + 1 - it.start) * it.gran)
+                   \* fseek(SrcFile, (ErgStart - InpStart) * Gran, SEEK_CUR), then ErgLen = (ErgStop + 1 - ErgStart) * Gran
+                   \* bytes are copied -- whatever stands there: a skip beyond the clip address runs on into the bytes that
+                   \* follow the record in the file (FileBehind: the next header / the end-of-file record, unknown here)
+                   skip == (es - it.start) * (IF "skip_maxgran" \in D THEN m.maxgran ELSE it.gran)
+                   elen == (ee + 1 - es) * it.gran
+                   src == [k \in 1..elen |-> IF skip + k <= Len(it.data) THEN it.data[skip + k] ELSE FileBehind]
                    out == IF LaneDiv(o.lane) = 1 THEN src ELSE Thin(o.lane, es * it.gran, src)
                IN [s EXCEPT !.file = WriteAt(@, TargetPos(D, o, m, it, es), out),
                             !.used = ac.used, !.warn = @ \/ ac.warn, !.stale = @ \/ ac.stale]
@@ -232,7 +245,8 @@ LaneAddr(l, base, i) == LET k    == Len(LaneOffs(l))
                             n    == i - 1 + skip
                         IN b0 + (n \div k) * Period(l) + LaneOffs(l)[(n % k) + 1]
 
-\* The manual gives the case a definite outcome: one granularity among the selected records, a determinable
+\* The manual gives the case a definite outcome: one granularity among the selected records (several: Part 2b,
+\* DefiniteMixed / AllowedMixed), a determinable
 \* non-empty window, and a window whose LENGTH is a whole number of lane periods: such a window holds exactly
 \* length / factor lane bytes wherever it starts ("smaller by a factor of 2 or 4"), so the start itself may have any
 \* phase; the manual is silent only about windows with a partial period.
@@ -274,11 +288,105 @@ Allowed(c, obs) ==
      /\ obs.warn => \E i, j \in S : i < j /\ CommonAddr(items[i], items[j], 0, BIG)
 
 (***************************************************************************)
+(* Part 2b: selected records of DIFFERENT granularity                      *)
+(***************************************************************************)
+\* The property quantifies over "several segments/CPUs/granularities", and a code file may well hold records of two
+\* processors with different granularity in the selected segment (or two input files do).  What the manual fixes:
+\*   - "Address specifications always relate to the granularity of the processor currently in question"
+\*     (utility-programs.md) and "the start address refers to the granularity, the Length value is always expressed
+\*     in bytes" (file-formats.md): -r bounds, (offset) suffixes and record starts are ADDRESSES, each record counts
+\*     them in units of ITS OWN granularity.  Window A..B clips a record r to the addresses Max(A, r.start) ..
+\*     Min(B, LastAddr(r)); the bytes of those addresses are the bytes (addr - r.start) * r.gran .. of r.data.
+\*   - "the lowest resp. highest address found in the source file": the automatic bounds are the lowest start /
+\*     highest end ADDRESS of the selected records whatever their unit.
+\*   - "the file length equals the selected range": B - A + 1 addresses, in bytes of the LARGEST unit among the
+\*     selected records (the image must hold every selected address of every record; the tool measures MaxGran for it),
+\*     divided by the lane factor.
+\*   - a record of that largest unit therefore lies where the uniform rule puts it: output position i <-> byte address
+\*     A * Gmax + i of the lane.
+\* What the manual does NOT fix: where the bytes of a record of a SMALLER unit stand in an image laid out in the larger
+\* unit (the pinned code packs them at (addr - A) * r.gran; spreading them over the slots of the larger unit would be as
+\* defensible).  So the weaker-but-definite claim AllowedMixed leaves the POSITION of such a record open and demands:
+\*   (len)  exit status 0, length = header + (B - A + 1) * Gmax / lane factor, entry header as in the uniform case
+\*   (own)  every image byte is the fill value or a byte that a selected record holds at an address INSIDE the window,
+\*          in the lane (lane of a byte = its byte address addr * r.gran + j in the record's own unit): no byte of a
+\*          clipped-away address, of a record header, of an unselected record or of the creator string ever shows
+\*   (pos)  at a position whose byte address (largest unit) some record of the largest unit covers, the fill value
+\*          never shows; where none covers, no byte of a largest-unit record shows
+\*   (run)  every selected record contributes the bytes of its clipped part FROM THE CLIP ADDRESS ON, contiguously and
+\*          in order, somewhere in the image; single bytes of the run may be hidden by bytes of ANOTHER selected record
+\*          (true overlap, or records of different unit that collide in the image), never by fill or foreign bytes
+\*   (sum)  -s as in the uniform case
+\*   (warn) pairs of the SAME unit: as in the uniform case (common address inside the window => warning); a warning
+\*          needs some pair with a common address (unit addresses, or byte ranges of the own units) anywhere
+\* The operational model (and the real program) is finer: exact positions.  A run that satisfies AllowedMixed but is
+\* not reproduced by the model is drift, as everywhere.
+DGmax(o, items) == IF DSel(o, items) = {} THEN 1 ELSE Max({items[i].gran : i \in DSel(o, items)})
+\* lane membership as the manual words it (address 4n+k, odd / even address, lower / upper word of a 32-bit word)
+InLaneD(l, x) == \E j \in 1..Len(LaneOffs(l)) : x % Period(l) = LaneOffs(l)[j]
+\* clipped part of record r in window A..B: byte addresses lo..hi-1 in the record's own unit
+ClipLo(r, A) == Max2(r.start, A) * r.gran
+ClipHi(r, B) == (Min2(LastAddr(r), B) + 1) * r.gran
+ClipAddrs(l, r, A, B) == SelectSeq([k \in 1..Max2(0, ClipHi(r, B) - ClipLo(r, A)) |-> ClipLo(r, A) + k - 1],
+                                   LAMBDA x : InLaneD(l, x))
+ClipSeq(l, r, A, B) == LET xs == ClipAddrs(l, r, A, B) IN [k \in 1..Len(xs) |-> ByteAt(r, xs[k])]
+ClipBytes(l, r, A, B) == {ByteAt(r, x) : x \in {y \in ClipLo(r, A)..(ClipHi(r, B) - 1) : InLaneD(l, y)}}
+
+DefiniteMixed(c) ==
+  LET o == c.o
+      items == DFlat(c)
+  IN /\ FormsOK(c) /\ WellFormed(items) /\ ~DUniform(o, items)
+     /\ DStart(o, items) <= DStop(o, items)
+     /\ ((DStop(o, items) - DStart(o, items) + 1) * DGmax(o, items)) % Period(o.lane) = 0
+
+\* the run claim for one record: clip = its clipped bytes, others = byte values other selected records may lay over it,
+\* body = image behind the header, free = number of trailing positions that may hold anything (the -s byte)
+RunSomewhere(body, clip, others, free) ==
+  LET n == Len(clip)
+      N == Len(body)
+  IN n = 0 \/ \E p \in 0..(N - n) : \A k \in 1..n : \/ body[p + k] = clip[k]
+                                                     \/ body[p + k] \in others
+                                                     \/ p + k > N - free
+
+AllowedMixed(c, obs) ==
+  LET o == c.o
+      items == DFlat(c)
+      S == DSel(o, items)
+      G == DGmax(o, items)
+      A == DStart(o, items)
+      B == DStop(o, items)
+      H == HdrLen(o)
+      N == ((B - A + 1) * G) \div LaneDiv(o.lane)
+      free == IF o.sum THEN 1 ELSE 0
+      ent == DEntry(c)
+      body == SubSeq(obs.bytes, H + 1, H + N)
+      clipOf(i) == ClipBytes(o.lane, items[i], A, B)
+      small == UNION {clipOf(i) : i \in {j \in S : items[j].gran < G}}
+      big == {i \in S : items[i].gran = G}
+      sameGran(i, j) == items[i].gran = items[j].gran
+      bytesMeet(r1, r2) == Max2(ByteLo(r1), ByteLo(r2)) < Min2(ByteHi(r1), ByteHi(r2))
+  IN /\ obs.rc = 0
+     /\ Len(obs.bytes) = H + N                                                                        \* (len)
+     /\ ent >= 0 => SubSeq(obs.bytes, 1, H) = EntryBytes(o, ent)
+     /\ \A i \in 1..(N - free) : body[i] \in {o.fill} \cup UNION {clipOf(j) : j \in S}                 \* (own)
+     /\ \A i \in 1..(N - free) :                                                                       \* (pos)
+           LET x == LaneAddr(o.lane, A * G, i)
+               cov == {j \in big : CoversByte(items[j], x)}
+           IN body[i] \in (IF cov = {} THEN {o.fill} ELSE {ByteAt(items[j], x) : j \in cov}) \cup small
+     /\ \A i \in S : RunSomewhere(body, ClipSeq(o.lane, items[i], A, B),                               \* (run)
+                                  UNION {clipOf(j) : j \in S \ {i}}, free)
+     /\ o.sum => /\ N >= 1                                                                             \* (sum)
+                 /\ Sum(body) % 256 = 0 \/ (H > 0 /\ Sum(obs.bytes) % 256 = 0)
+     /\ (\E i, j \in S : i < j /\ sameGran(i, j) /\ CommonAddr(items[i], items[j], A, B)) => obs.warn  \* (warn)
+     /\ obs.warn => \E i, j \in S : i < j /\ (CommonAddr(items[i], items[j], 0, BIG) \/ bytesMeet(items[i], items[j]))
+
+(***************************************************************************)
 (* Part 3: judging an observation of the real program                      *)
 (***************************************************************************)
 Matches(out, obs) == out.rc = -1 \/ (out.rc = obs.rc /\ out.bytes = obs.bytes /\ out.warn = obs.warn)
 
-\* ok    : the observation satisfies the property (or the case is outside what the manual defines)
+\* ok    : the observation satisfies the property: Allowed in a Definite case, the weaker AllowedMixed in a
+\*         DefiniteMixed case (selected records of different granularity); true outside what the manual defines
 \* fit   : smallest set of named deviations under which the operational model reproduces the observation
 \*         exactly; <<"none">> if no set does.  Several sets may fit (nothing selected by a broken filter looks like
 \*         an unmeasured granularity when the record lies outside the window): a set inside K, the deviations still
@@ -288,10 +396,11 @@ Matches(out, obs) == out.rc = -1 \/ (out.rc = obs.rc /\ out.bytes = obs.bytes /\
 MinCard(S) == CHOOSE D \in S : \A E \in S : Cardinality(D) <= Cardinality(E)
 Verdict(c, obs, K) ==
   LET def   == Definite(c)
-      ok    == ~def \/ Allowed(c, obs)
+      defm  == DefiniteMixed(c)
+      ok    == (~def \/ Allowed(c, obs)) /\ (~defm \/ AllowedMixed(c, obs))
       fits  == {D \in SUBSET Devs : Matches(Run(D, c), obs)}
       fitsK == {D \in fits : D \subseteq K}
-  IN [definite |-> def, ok |-> ok,
+  IN [definite |-> def, mixed |-> defm, ok |-> ok,
       fit |-> IF Matches(Run({}, c), obs) THEN <<>> ELSE IF fits = {} THEN <<"none">>
               ELSE SetToSeq(IF fitsK # {} THEN MinCard(fitsK) ELSE MinCard(fits))]
 =============================================================================
